@@ -51,12 +51,19 @@ type Cfg struct {
 	RepoAuth bool   `json:"repo_auth"`
 	TLS      bool   `json:"tls"` // A (and its mirror/second registry) configured for TLS
 	Mirror   bool   `json:"mirror"` // A is configured with mirror M (own credentials, same content)
+	// Alias: "mirror" the mirror's configuration entry is named m-alias.example and reached at
+	// m.example; "upstream" registry A is named a-alias.example (references use that name) and reached
+	// at a.example
+	Alias string `json:"alias,omitempty"`
 }
 
 func (c Cfg) String() string {
 	s := fmt.Sprintf("%s authA=%s repoAuth=%v tls=%v", c.Op, c.SchemeA, c.RepoAuth, c.TLS)
 	if c.Mirror {
 		s += " mirror=true"
+	}
+	if c.Alias != "" {
+		s += " alias=" + c.Alias
 	}
 	return s
 }
@@ -434,21 +441,28 @@ func (w *world) client() *regclient.RegClient {
 	if w.cfg.SchemeA == "bearer-idtoken" {
 		ha.User, ha.Pass, ha.Token = "", "", creds[hA][2]
 	}
+	mirrorName := hM
+	if w.cfg.Alias == "mirror" {
+		mirrorName = "m-alias.example"
+	}
+	if w.cfg.Alias == "upstream" {
+		ha.Name = "a-alias.example"
+	}
 	if w.cfg.Op == "mirror-read" || w.cfg.Mirror {
-		ha.Mirrors = []string{hM}
+		ha.Mirrors = []string{mirrorName}
 	}
 	if w.cfg.Op == "blob-put-chunked" {
 		ha.BlobChunk, ha.BlobMax = 3, 4
 	}
 	hb := config.Host{Name: hB, Hostname: hB, TLS: tls, User: creds[hB][0], Pass: creds[hB][1]}
-	hm := config.Host{Name: hM, Hostname: hM, TLS: tls, User: creds[hM][0], Pass: creds[hM][1]}
+	hm := config.Host{Name: mirrorName, Hostname: hM, TLS: tls, User: creds[hM][0], Pass: creds[hM][1]}
 	lg := slog.New(slog.NewTextHandler(&w.logBuf, &slog.HandlerOptions{Level: types.LevelTrace}))
 	return rcenv.New(w, nil, rcenv.Opts{Hosts: []config.Host{ha, hb, hm}, Slog: lg, RetryLimit: 3})
 }
 
-func doOp(rc *regclient.RegClient, op string) error {
+func doOp(rc *regclient.RegClient, op string, nameA string) error {
 	ctx := context.Background()
-	rA, _ := ref.New(hA + "/" + repo + ":v1")
+	rA, _ := ref.New(nameA + "/" + repo + ":v1")
 	var ld string
 	for d := range g1.Blobs {
 		if ld == "" || d < ld {
@@ -490,7 +504,7 @@ func doOp(rc *regclient.RegClient, op string) error {
 		_, err := rc.BlobPut(ctx, rA, descriptor.Descriptor{Digest: digest.FromBytes(data), Size: int64(len(data))}, bytes.NewReader(data))
 		return err
 	case "blob-mount":
-		rT, _ := ref.New(hA + "/proj/other:v1")
+		rT, _ := ref.New(nameA + "/proj/other:v1")
 		return rc.BlobMount(ctx, rA, rT, ldesc)
 	case "manifest-head":
 		_, err := rc.ManifestHead(ctx, rA)
@@ -546,7 +560,11 @@ func run(t *testing.T, c *explore.Ctx, cfg Cfg) *result {
 		// execution is a function of the deviation choices only
 		out := qsched.Run(c, qsched.Config{Branch: map[qsched.Kind]bool{}}, map[string]func(*qsched.Sched){"op": func(s *qsched.Sched) {
 			w.sched = s
-			res.err = doOp(rc, cfg.Op)
+			nameA := hA
+			if cfg.Alias == "upstream" {
+				nameA = "a-alias.example"
+			}
+			res.err = doOp(rc, cfg.Op, nameA)
 		}}, []string{"op"})
 		w.sched = nil
 		if out.Panic != nil {
@@ -599,7 +617,7 @@ type replay struct {
 func TestVerifC11(t *testing.T) {
 	rec := ev.New()
 	defer rec.Flush(t)
-	rec.Rule("scenario = operation {ping, manifest get/head/put/delete, blob get through a redirect to a CDN host, blob head/put (single request, streamed with unknown digest, chunked)/mount/delete, tag list (one page, three pages), tag delete, referrers (one page, paged), read through a mirror, cross-registry copy, copy of an image with an external layer URL} x registry alone / with a mirror that has its own credentials and the same content x auth scheme of the registry {basic, bearer via its token endpoint, bearer with an identity token (POST/refresh flow)} x per-repository auth on/off x TLS configured or not; every host has its own distinctive credentials. " +
+	rec.Rule("scenario = operation {ping, manifest get/head/put/delete, blob get through a redirect to a CDN host, blob head/put (single request, streamed with unknown digest, chunked)/mount/delete, tag list (one page, three pages), tag delete, referrers (one page, paged), read through a mirror, cross-registry copy, copy of an image with an external layer URL} x registry alone / with a mirror that has its own credentials and the same content x configuration names equal to the host names / the upstream or the mirror configured under an alias name x auth scheme of the registry {basic, bearer via its token endpoint, bearer with an identity token (POST/refresh flow)} x per-repository auth on/off x TLS configured or not; every host has its own distinctive credentials. " +
 		"Per scenario every sequence of at most k deviations (k=2 quick, 3 thorough; 1 for the copies in quick): any host — registry, mirror, token endpoint, redirect target, external layer host — answers 401 at any request position with {Basic, Bearer naming its own endpoint, Bearer naming a foreign host, Bearer naming an http:// realm on itself, two challenges, malformed, none}. " +
 		"Oracle: every URL, header and body received by every host and the client's trace-level log are scanned for every secret (user, password, identity token, issued bearer and refresh tokens) raw, URL-encoded, base64 and as base64(user:pass): a secret of registry Y may appear only at Y and at a token endpoint named by a challenge Y itself sent, never over http to a host configured for TLS, never in the log. distinct_nontrivial = distinct (scenario, deviation list, requests seen)")
 	rec.Assume("credential helpers are replaced by static credentials; TLS is represented by the URL scheme")
@@ -636,6 +654,13 @@ func TestVerifC11(t *testing.T) {
 					items = append(items, Cfg{Op: op, SchemeA: sa, RepoAuth: ra, TLS: tls})
 					if op != "mirror-read" && op != "ping" {
 						items = append(items, Cfg{Op: op, SchemeA: sa, RepoAuth: ra, TLS: tls, Mirror: true})
+					}
+					if tls && !ra {
+						// configuration entries whose name is not the host they are reached at
+						items = append(items, Cfg{Op: op, SchemeA: sa, RepoAuth: ra, TLS: tls, Mirror: op != "ping", Alias: "upstream"})
+						if op != "ping" {
+							items = append(items, Cfg{Op: op, SchemeA: sa, RepoAuth: ra, TLS: tls, Mirror: true, Alias: "mirror"})
+						}
 					}
 				}
 			}
